@@ -115,6 +115,9 @@ class Init:
                 "latin1": rng.random() < 0.3,
                 # fidelity: the whole sequence as real `python -m bumpver` processes, also with assert statements compiled
                 # away (python -O / PYTHONOPTIMIZE, as some deployments set it globally)
+                # a project half-way from PyCalVer to bumpver: pycalver.toml still holds its old [pycalver] table, which has a
+                # current_version but (as PyCalVer allowed) no version_pattern - a section bumpver cannot use as it stands
+                "legacy_partial": rng.random() < (0.04 if tier == "quick" else 0.004),
                 "child_opt": rng.choice(["", "1", "2"]) if rng.random() < (0.03 if tier == "quick" else 0.004) else None,
                 "stale": rng.choice([None, None, None, ["bumpver.toml.tmp"], ["setup.cfg.tmp", "pyproject.toml.tmp"],
                                      ["bumpver.toml.bak", "pyproject.toml~"], [".bumpver.toml.swp", "pycalver.toml.tmp"]])}
@@ -163,6 +166,11 @@ class Init:
         for name in case.get("stale") or []:
             files[name] = section("bumpver.toml", "2019.1001")
             ctx.probe("stale_scratch_file")
+        legacy_partial = bool(case.get("legacy_partial")) and not sectioned
+        if legacy_partial:
+            files["pycalver.toml"] = (b'[pycalver]\ncurrent_version = "v201812.0033-beta"\ncommit = true\ntag = true\n\n'
+                                      b'[pycalver.file_patterns]\n"README.md" = ["{version}"]\n')
+            ctx.probe("partly_valid_legacy_section")
         invoker.write_tree(d, files)
         if case.get("vcs") == "git":
             import os
@@ -232,6 +240,9 @@ class Init:
             ctx.violation("C19", "init_touched_several_files", facts, "`init` changed %s" % changed)
             return
         target = changed[0]
+        if legacy_partial and target != "pycalver.toml":
+            ctx.violation("C19", "configured_file_not_preferred", dict(facts, target=target),
+                          "pycalver.toml holds a section with a current_version, yet `init` wrote its configuration to %s" % target)
         prior = r.before.get(target, b"")
         if not r.after[target].startswith(prior):
             ctx.violation("C19", "init_clobbered_content", dict(facts, target=target),
